@@ -1063,6 +1063,7 @@ def generate(rng, reps, soups, hists=1):
             f1(P, True)
             f2(P, c2)
             P.finish()
+            gate_by_tags(P.spec)
             choose_words(P)
             specs.append([P.spec])
     for rep in range(hists):
